@@ -440,6 +440,10 @@ impl Stack {
         }
     }
 
+    pub fn max_stack_size(&self) -> VmIndex {
+        self.max_stack_size
+    }
+
     pub fn set_max_stack_size(&mut self, max_stack_size: VmIndex) {
         self.max_stack_size = max_stack_size;
     }
